@@ -18,6 +18,10 @@ OL_NONLOCAL_DICT: _ol_reserved_name = "__ol_nonlocal_{}"
 OL_CLASS_DICT: _ol_reserved_name = "__ol_classnsp_{}"
 OL_CLASS_LOADER: _ol_reserved_name = "__ol_loader_{}"
 OL_IMPORT_TMP: _ol_reserved_name = "__ol_mod_{}"
+# comprehension-local names, don't need format
+OL_WHILE_COUNTER: _ol_reserved_name = "__ol_cnt"
+OL_CLASS_MEMBER_KEY: _ol_reserved_name = "__ol_k"
+OL_CLASS_MEMBER_VALUE: _ol_reserved_name = "__ol_v"
 
 
 def ol_name(name: _ol_reserved_name):
